@@ -845,8 +845,9 @@ def _extract_excerpt(text, pos, col):
         # Chop the line off at the end.
         return text[start : start + 90] + ' ...' + _caret_at(col - 1)
 
-    elif end - pos < 40:
-        # Chop the line off at the start.
+    elif end - pos < 42:
+        # Chop the line off at the start. (Chopping at both ends shows 42
+        # characters from the error position, so it needs that many.)
         return '... ' + text[end - 90 : end] + _caret_at(pos - (end - 90) + 4)
 
     else:
